@@ -355,6 +355,71 @@ def extra_probes(ctx: Ctx):
         ctx.fail("dump-results-share-container", "extra_out: dumped dict not created anew", {"probe": "extra"})
 
 
+def extra_layout_suite(ctx: Ctx, n: int):
+    """generated models (dataclass / TypedDict with NotRequired keys) with one to three extra-data fields of as-is and dumped
+    types, name_mapping(extra_in=..., extra_out=<one field | several fields | extractor>), objects with every subset of the extra
+    fields present: load and dump leave their argument untouched (deep snapshot), are repeatable, and a later dump of the
+    modified object shows no trace of the earlier one"""
+    import typing
+    from dataclasses import make_dataclass
+    from typing import Any
+
+    from adaptix import Retort, name_mapping
+    rng = ctx.rng
+    for i in range(n):
+        kind = rng.choice(["dataclass", "typeddict", "typeddict"])
+        n_extra = rng.choice([1, 2, 2, 3])
+        extra_names = [f"ex{j}" for j in range(n_extra)]
+        extra_types = {nm: rng.choice([Any, dict, dict[str, Any], dict[str, int], typing.Mapping[str, Any]]) for nm in extra_names}
+        regular = [("a", int), ("b", str)]
+        if kind == "dataclass":
+            import dataclasses
+            cls = make_dataclass(f"XL{i}", [*regular, *[(nm, extra_types[nm], dataclasses.field(default_factory=dict)) for nm in extra_names]])
+            mk = lambda **kw: cls(**kw)          # noqa: E731
+        else:
+            ann = {"a": int, "b": typing.NotRequired[str], **{nm: typing.NotRequired[extra_types[nm]] for nm in extra_names}}
+            cls = typing.TypedDict(f"XL{i}", ann)
+            mk = lambda **kw: dict(kw)           # noqa: E731
+        out_mode = rng.choice(["one", "several", "several", "extractor"]) if n_extra > 1 else rng.choice(["one", "extractor"])
+        if out_mode == "one":
+            extra_out = extra_names[0]
+        elif out_mode == "several":
+            extra_out = list(extra_names)
+        else:
+            def extra_out(obj, names=tuple(extra_names), is_td=(kind != "dataclass")):
+                first = (obj.get(names[0], {}) if is_td else getattr(obj, names[0]))
+                return first
+        try:
+            retort = Retort(recipe=[name_mapping(cls, extra_out=extra_out)])
+            present = [nm for nm in extra_names if kind == "dataclass" or rng.random() < 0.8] or extra_names[:1]
+            obj = mk(a=1, b="s", **{nm: {f"k{j}_{nm}": j + 1, "shared": j} for j, nm in enumerate(present)})
+            snap = copy.deepcopy(obj)
+            d1 = retort.dump(obj, cls)
+        except Exception as e:  # noqa: BLE001
+            ctx.dist[f"extra-layout:not-built:{type(e).__name__}"] += 1
+            continue
+        case = {"probe": "extra-layout", "kind": kind, "extra_types": {k: repr(v) for k, v in extra_types.items()}, "extra_out": out_mode,
+                "present": present}
+        ctx.note_case(case, nontrivial=len(present) > 1, kind=f"extra-layout:{kind}:{out_mode}:{len(present)}-present")
+        if obj != snap:
+            ctx.fail("dump-mutates-object", f"dumping a {kind} model with extra_out={out_mode} changed its argument: before {snap!r:.120} "
+                     f"after {obj!r:.120}", case)
+            continue
+        d2 = retort.dump(obj, cls)
+        if d1 != d2:
+            ctx.fail("dump-not-repeatable", f"two dumps of the same unchanged object differ: {d1!r:.100} / {d2!r:.100}", case)
+            continue
+        if len(present) > 1 and kind != "dataclass":
+            # drop one extra field and dump again: nothing of the dropped field may survive anywhere
+            dropped = present[-1]
+            obj2 = {k: v for k, v in obj.items() if k != dropped}
+            want = Retort(recipe=[name_mapping(cls, extra_out=extra_out)]).dump(copy.deepcopy(obj2), cls)
+            got = retort.dump(obj2, cls)
+            if got != want:
+                ctx.fail("dump-depends-on-earlier-dump", f"after an earlier dump, dumping the object without {dropped} gives {got!r:.120}; "
+                         f"a fresh retort on a fresh copy gives {want!r:.120}", case)
+
+
 def convert_probes(ctx: Ctx):
     from adaptix.conversion import get_converter
 
@@ -389,6 +454,7 @@ def run(ctx: Ctx):
     run_load_cases(ctx, eng, specs)
     default_probes(ctx)
     extra_probes(ctx)
+    extra_layout_suite(ctx, ctx.budget(120, 2000))
     convert_probes(ctx)
 
 
@@ -398,6 +464,7 @@ def search(ctx: Ctx):
     run_load_cases(ctx, eng, eng.gen_specs(2500, 4, stateful=True))
     default_probes(ctx)
     extra_probes(ctx)
+    extra_layout_suite(ctx, 1500)
     convert_probes(ctx)
 
 
@@ -405,5 +472,6 @@ def replay(ctx: Ctx, case) -> bool:
     before = len(ctx.failures)
     default_probes(ctx)
     extra_probes(ctx)
+    extra_layout_suite(ctx, 400)
     convert_probes(ctx)
     return len(ctx.failures) > before
